@@ -106,6 +106,37 @@ def squash_cycle_collapse(rec):
     return True
 
 
+def rand_shared_ring(rng, laa):
+    """one atom shared by THREE or more DIFFERENT fragments so that an atom that already absorbed another one is itself
+    removed by a later merge (seed C02-6): a ring of k coarse nodes F0..F(k-1) whose LAST node shares its marked atom with
+    F0 (ring bond) and with F(k-2) (chain bond), optionally also with a tail node T; the other chain bonds are ordinary.
+    Every fragment copy contributes ONE atom to the shared atom, so the input is inside the judged domain."""
+    k = rng.randint(3, 5)
+    tail = rng.random() < 0.4
+    if laa:
+        sh = rng.choice(['C', 'N'])
+        other = lambda: rng.choice(['C', 'O', 'N', 'S', 'CC', 'C(C)'])      # noqa: E731
+    else:
+        sh = '[#Y]'
+        other = lambda: rng.choice(['[#X]', '[#P]', '[#X][#Q]', '[#P]([#Q])'])      # noqa: E731
+    frags = []
+    for i in range(k):
+        if i == k - 1:
+            f = other() + sh + '[!a][!b]' + ('[!d]' if tail else '')
+        else:
+            # the ordinary chain bonds sit on the OTHER atom(s), the squash operators on the shared atom
+            plain = ('[$c%d]' % (i - 1) if i > 0 else '') + ('[$c%d]' % i if i < k - 2 else '')
+            bang = ('[!a]' if i == 0 else '') + ('[!b]' if i == k - 2 else '')
+            f = other() + plain + sh + bang
+        frags.append('#F%d=%s' % (i, f))
+    base = '{[#F0]1' + ''.join('[#F%d]' % i for i in range(1, k)) + '1' + ('[#T]' if tail else '') + '}'
+    if tail:
+        frags.append('#T=%s%s[!d]' % (other(), sh))
+    if rng.random() < 0.5:
+        rng.shuffle(frags)
+    return base, [frags]
+
+
 class C02(RS.StepProp):
     id = 'C02'
     level = 'proof'
@@ -151,6 +182,13 @@ class C02(RS.StepProp):
                 ('{[#A][#B][#A]}.{#A=[!][#X][#Y][!],#B=[!][#Y][#X][!]}.{#X=[!]OC[!],#Y=[!]CC[!]}', True),
                 ('{[#A][#B]}.{#A=[#X][#Y][!],#B=[!][#Y][#Z]}.{#X=[#P][#Q][!],#Y=[!][#Q][#R][!],#Z=[!][#R][#S]}', False),
                 ('{[#A][#B]}.{#A=[#X][#Y][$],#B=[$][#X]}.{#X=[$]CC[$],#Y=[$]O[$]}', True),
+                # one atom shared by three or more DIFFERENT fragments, the hub fragment written LAST so that an atom that already
+                # absorbed another one is itself removed by a later merge (seed C02-6); all-atom, coarse, two levels
+                ('{[#F0]1[#F1][#F2]1[#F3]}.{#F0=C[$a]C[!b],#F1=C[$a]C[!c],#F2=C[!b][!c][!d],#F3=OC[!d]}', True),
+                ('{[#A]1[#B][#C]1}.{#A=[$]CC[!a],#B=[$]OC[!b],#C=NC[!a][!b]}', True),
+                ('{[#A]1[#B][#C][#D]1}.{#A=CC[!a],#B=[$]OC[$],#C=[$]NC[!b],#D=SC[!a][!b]}', True),
+                ('{[#A]1[#B][#C]1}.{#A=[$][#X][#Y][!a],#B=[$][#P][#Y][!b],#C=[#Q][#Y][!a][!b]}', False),
+                ('{[#A]1[#B][#C]1}.{#A=[$][#X][#Y][!a],#B=[$][#P][#Y][!b],#C=[#Q][#Y][!a][!b]}.{#X=[$]CC,#Y=[$]C[$],#P=[$]O,#Q=[$]N}', True),
                 # explicitly written hydrogens that carry their own annotation with a value that reads as "false"
                 # (weight 0 / 0.0) on parents of non-zero weight: the copy keeps the fragment's value (seed C02-8)
                 ('{[#A][#B]}.{#A=C[H;w=0][$],#B=[$]O[H;0]}', True),
@@ -187,6 +225,10 @@ class C02(RS.StepProp):
                 if rekey:
                     c['rekey'] = True
                 out.append(c)
+        for _ in range(max(3, n // 25)):
+            laa = rng.random() < 0.6
+            base, blocks = rand_shared_ring(rng, laa)
+            out.append({'kind': 'step', 's': RS.join_blocks(base, blocks), 'laa': laa, 'legacy': rng.random() < 0.5, 'level': 0})
         for _ in range(n_nx):
             out.append(NX.rand_case(rng))
         # histories: the same kind of input after an unrelated public helper ran in this process (compute_mass on a bare
